@@ -97,8 +97,28 @@ RULE = ("model: TLC explores all interleavings of the row-parallel loop (threads
         "the complete block space n<=4 (quick) / n<=6 (thorough) plus larger collections, through the OpenMP extension "
         "and direct *_parallel calls with 3-7 thread counts (up to 64, more threads than rows), NaN-prefilled output "
         "buffers of exactly the advertised length between canaries, the real dtw_distances_prepare plan, and the "
-        "multiprocessing branches with a pool whose tasks complete in seeded random orders (and a real Pool); every "
+        "multiprocessing branches with a pool whose tasks complete in seeded random orders (and a real Pool); and the "
+        "REAL loop bodies linked against a deterministic scheduler (native/gomp_shim.c) instead of libgomp, executed "
+        "under all row permutations x thread assignments for blocks of <= 3 rows and seeded schedules beyond; every "
         "output must equal the serial routine and the specification element for element; non-trivial = block given")
+
+
+def shim_items(ctx):
+    """Every block for n <= 4 (5): all row permutations x thread assignments for small blocks, seeded beyond."""
+    q = ctx.quick
+    rng = ctx.rng("c07-shim")
+    out = []
+    for n in range(2, (4 if q else 5) + 1):
+        for (blk, triu) in all_blocks(n):
+            if q and n == 4 and rng.random() > 0.4:
+                continue
+            nd = 2 if rng.random() < 0.2 else 1
+            ser = make_collection(rng, n, nd=nd, equal=rng.random() < 0.5)
+            out.append({"n": n, "ser": ser, "S": 1, "set": settings_template(rng, ser), "blk": blk, "triu": triu,
+                        "noblock": False, "shim_threads": [2, 3] if q else [2, 3, 5], "shim_samples": 4 if q else 12})
+    for k, it in enumerate(out):
+        it["id"] = "c07s-%d" % k
+    return out
 
 
 def run(ctx):
@@ -106,6 +126,9 @@ def run(ctx):
     src = build.py_build()
     model(ctx)
     dm_pass(ctx, src, items(ctx), "run_c07")
+    its = shim_items(ctx)
+    dm_pass(ctx, src, its, "run_c07_shim")
+    ctx.extra["shim_schedules_executed"] = sum(it["_rec"].get("schedules", 0) for it in its)
     return core.finish(ctx)
 
 
